@@ -15,7 +15,7 @@ impl Prop for C13Prop {
         "C13"
     }
     fn rule(&self) -> &'static str {
-        "three streams. (1) programs over scripted commands (straight-line, goto-label and goto-line loops incl. loops that never end by themselves, handled errors with on_error) in which the k-th command invocation raises the embedder's halt flag, for k drawn over every boundary of the run; the run must return Ok with exactly the invocations up to and including the k-th in the log and the variables as they were then. Observed: call log, final variables, Ok/Err. (2) c13s: structured SDK programs of C05's generator (if/elseif/else, while, for-in, functions, functions in condition position = nested evaluator) in which one `emit` is `emit __halt__`, which raises the flag from inside; compared with the halt-aware model (Sdk/FlowHalt.lean); relation: the run returns Ok and nothing is emitted after it. (3) c13t: four loop shapes that never end by themselves (goto, while over a value, while over a command condition, nested for-in over ranges) with a SECOND THREAD raising the flag after 0-3000 us; relation: returns Ok within the time limit and at most one `tick` observed the flag set. Non-trivial = the flag is raised and at least one instruction would have followed; distinct = distinct request."
+        "three streams. (1) programs over scripted commands (straight-line, goto-label and goto-line loops incl. loops that never end by themselves, handled errors with on_error) in which the k-th command invocation raises the embedder's halt flag, for k drawn over every boundary of the run; the run must return Ok with exactly the invocations up to and including the k-th in the log and the variables as they were then. Observed: call log, final variables, Ok/Err. (2) c13s: structured SDK programs of C05's generator (if/elseif/else, while, for-in, functions, functions in condition position = nested evaluator) in which one `emit` is `emit __halt__`, which raises the flag from inside; compared with the halt-aware model (Sdk/FlowHalt.lean); relation: the run returns Ok and nothing is emitted after it. (3) c13t: loop shapes that never end by themselves (goto, while over a value, while over a command condition, nested for-in over ranges, a goto-only loop, an empty while inside a function in condition position; and — in a child process with capped memory — loops of the nested evaluator made of jumps only: two functions calling each other for ever under if / not / while, scoped or not) with a SECOND THREAD raising the flag after 0-3000 us; relation: returns Ok within the time limit and at most one `tick` observed the flag set. Non-trivial = the flag is raised and at least one instruction would have followed; distinct = distinct request."
     }
     fn budget(&self, tier: Tier) -> usize {
         match tier {
@@ -29,7 +29,11 @@ impl Prop for C13Prop {
         }
         if rng.chance(1, 40) {
             // a second thread raises the flag at a random instant of a loop that never ends by itself
-            let shape = rng.below(4);
+            // shapes 100.. = the nested jump-only loops run in a child process (delay in ms)
+            if rng.chance(1, 5) {
+                return Case { req: format!("c13t {} {}", 100 + rng.below(CHILD_LOOPS.len()), 1 + rng.below(20)), in_domain: true, nontrivial: true, tags: vec!["second-thread", "child-process"] };
+            }
+            let shape = rng.below(6);
             let delay_us = rng.below(3000);
             return Case { req: format!("c13t {} {}", shape, delay_us), in_domain: true, nontrivial: true, tags: vec!["second-thread"] };
         }
@@ -137,7 +141,9 @@ impl Prop for C13Prop {
     fn describe(&self, req: &str) -> String {
         if req.starts_with("c13t ") {
             let t: Vec<&str> = req.split(' ').collect();
-            return format!("endless loop of shape {} ({}), flag raised by a second thread after {} us", t[1], LOOPS[t[1].parse::<usize>().unwrap() % LOOPS.len()].replace('\n', " / "), t[2]);
+            let k = t[1].parse::<usize>().unwrap();
+            let text = if k >= 100 { CHILD_LOOPS[(k - 100) % CHILD_LOOPS.len()] } else { LOOPS[k % LOOPS.len()] };
+            return format!("endless loop of shape {} ({}), flag raised by a second thread after {} {}", t[1], text.replace('\n', " / "), t[2], if k >= 100 { "ms (child process)" } else { "us" });
         }
         if req.starts_with("c13s ") {
             return format!("structured program (emit __halt__ raises the flag) {}", crate::props::c04::describe_tree(req));
@@ -181,12 +187,50 @@ fn gen_structured_halt(rng: &mut Rng) -> Case {
 
 /// loops that never end by themselves: goto, while over a value, while over a command
 /// condition (nested evaluator), for-in over a large range with an inner if
-const LOOPS: [&str; 4] = [
+const LOOPS: [&str; 6] = [
     ":top\ntick\ngoto :top\n",
     "while true\n  tick\nend\n",
     "while not tick\n  x = set 1\nend\n",
     "r = range 0 20000\nfor i in ${r}\n  for j in ${r}\n    for k in ${r}\n      if true\n        tick\n      end\n    end\n  end\nend\n",
+    // loops made of JUMPS only (no command that answers `Continue` is ever run): in the runner,
+    // and in the nested evaluator (a function in condition position)
+    ":top\ngoto :top\n",
+    "fn spin\n  while true\n  end\nend\nwhile spin\nend\n",
 ];
+/// jump-only loops of the NESTED evaluator (labels are not available there; a function call and a
+/// function's `end` are jumps): two functions calling each other for ever.  Every round pushes a
+/// call frame, so these run in a child process (c07child: address space capped, exit 4 = no return
+/// within 5 s of the flag) with the flag raised after 1-20 ms.
+const CHILD_LOOPS: [&str; 4] = [
+    "fn ping\n  pong\nend\nfn pong\n  ping\nend\nif ping\nend\n",
+    "fn ping\n  pong\nend\nfn pong\n  ping\nend\nx = not ping\n",
+    "fn <scope> ping\n  pong\nend\nfn pong\n  ping\nend\nwhile ping\nend\n",
+    "fn ping\n  if pong\n  end\nend\nfn pong\n  ping\nend\nif ping\nend\n",
+];
+
+fn run_child_loop(shape: usize, delay_ms: u64) -> String {
+    static N: std::sync::atomic::AtomicUsize = std::sync::atomic::AtomicUsize::new(0);
+    let n = N.fetch_add(1, std::sync::atomic::Ordering::SeqCst);
+    let me = match std::env::current_exe() { Ok(p) => p, Err(_) => return "sched NO-CHILD-BINARY".to_string() };
+    let bin = match me.parent() { Some(d) => d.join("c07child"), None => return "sched NO-CHILD-BINARY".to_string() };
+    if !bin.exists() {
+        return "sched NO-CHILD-BINARY".to_string();
+    }
+    let file = std::env::temp_dir().join(format!("duck-c13loop-{}-{}.ds", std::process::id(), n));
+    let _ = std::fs::write(&file, CHILD_LOOPS[shape % CHILD_LOOPS.len()]);
+    let st = std::process::Command::new(bin)
+        .arg("text").arg(&file).arg(delay_ms.to_string())
+        .stdin(std::process::Stdio::null()).stdout(std::process::Stdio::null()).stderr(std::process::Stdio::null())
+        .status();
+    let _ = std::fs::remove_file(&file);
+    match st.ok().and_then(|s| s.code()) {
+        Some(0) => "sched ok".to_string(),
+        Some(4) => "sched hang".to_string(),
+        Some(3) => "PANIC".to_string(),
+        Some(c) => format!("sched child-exit-{}", c),
+        None => "sched child-killed-by-signal".to_string(),
+    }
+}
 
 #[derive(Clone)]
 struct Tick {
@@ -208,6 +252,22 @@ impl duckscript::types::command::Command for Tick {
 }
 
 fn run_second_thread(shape: usize, delay_us: u64) -> String {
+    if shape >= 100 {
+        return run_child_loop(shape - 100, delay_us);
+    }
+    // the run itself happens on a thread of its own: an implementation that never comes back is
+    // reported (`sched hang`) instead of hanging the check
+    let (tx, rx) = std::sync::mpsc::channel();
+    std::thread::spawn(move || {
+        let _ = tx.send(run_second_thread_here(shape, delay_us));
+    });
+    match rx.recv_timeout(std::time::Duration::from_secs(12)) {
+        Ok(s) => s,
+        Err(_) => "sched hang".to_string(),
+    }
+}
+
+fn run_second_thread_here(shape: usize, delay_us: u64) -> String {
     use std::sync::atomic::{AtomicBool, AtomicUsize, Ordering};
     use std::sync::Arc;
     let mut ctx = crate::sdkenv::sdk_context();
